@@ -201,6 +201,6 @@ Theorem C12_call_used_or_discarded : forall Bf nm e d s s' w,
   SpecS Bf (NCall (NName nm) [e]) d 0 s s' w.
 Proof.
   intros Bf nm e d s s' w Hp Hwf H.
-  apply (comp_stmt Bf (NCall (NName nm) [e])); [cbn [wstmt is_bcall]; exact Hp|reflexivity|exact Hwf|exact H].
+  apply (comp_stmt Bf (NCall (NName nm) [e])); [cbn [wstmt is_bcall forallb]; rewrite Hp; reflexivity|reflexivity|exact Hwf|exact H].
 Qed.
 Print Assumptions C12_call_used_or_discarded.
